@@ -19,7 +19,7 @@ pub const TURN_CAP: usize = 5000;
 
 fn plan(tier: Tier) -> Vec<Workload> {
     vec![
-        Workload::new("programs", tier.pick(30_000, 1_000_000)),
+        Workload::new("programs", tier.pick(200_000, 5_000_000)),
         Workload::new("caps", 64),
     ]
 }
